@@ -2,6 +2,7 @@
 options.
 """
 
+import codecs
 import os
 import typing
 import typing as t
@@ -1609,7 +1610,17 @@ class TemplateStream:
 
         try:
             if encoding is not None:
-                iterable = (x.encode(encoding, errors) for x in self)  # type: ignore
+                # Encode incrementally so that stateful codecs such as
+                # utf-16 only emit their byte order mark once.
+                encoder = codecs.getincrementalencoder(encoding)(errors or "strict")
+
+                def encode_all() -> t.Iterator[bytes]:
+                    for x in self:
+                        yield encoder.encode(x)
+
+                    yield encoder.encode("", True)
+
+                iterable = encode_all()  # type: ignore
             else:
                 iterable = self  # type: ignore
 
